@@ -1,6 +1,6 @@
 #!/bin/sh
 # usage: ./run.sh <property id> <quick|thorough> [extra vcheck flags]
-cd /verif || exit 2
+cd "$(dirname "$0")" || exit 2
 export GOFLAGS=-mod=mod GOPROXY=off
 unset GOSUMDB GOTOOLCHAIN
 mkdir -p bin
